@@ -345,4 +345,19 @@ def codeFacts : Facts :=
     codeStreamable := Mcp.Gen.mwInternalCodeStreamable
     codeSSE := Mcp.Gen.mwInternalCodeSSE }
 
+/-! ## fresh results (`extract/middleware.go` `mwSharedResults`) -/
+
+/-- Every request handler hands out a result of its own: none returns a package-level variable, and `handlePing`
+    returns a composite literal (or a `make`), built per call. -/
+def freshResults (shared : List (List Nat × List Nat)) (ping : List Nat) : Bool :=
+  shared.isEmpty && (ping == t!"literal" || ping == t!"make")
+
+/-- Two requests of one method, a result-modifying stage (mark `m`, written into the result object in place) on the path
+    of the FIRST only: the marks the second one's answer carries.  With one object handed out to both, the first
+    request's modification travels with it. -/
+def secondAnswerMarks (fresh : Bool) (m : Nat) : List Nat := if fresh then [] else [m]
+
+/-- Whether the after-stages of two requests work on one object, as read from today's source. -/
+def codeFreshResults : Bool := freshResults Mcp.Gen.mwSharedResultReturns Mcp.Gen.mwPingResultShape
+
 end Mcp.Middleware
